@@ -57,8 +57,20 @@ pub fn rx_spec(cache: usize) -> RxSpec {
 /// heap bound for a hostile sequence of `n` packets under a per-object limit `cache`:
 /// every packet may open one object (<= 64 x cache incl. per-symbol bookkeeping of E=1 blocks) or
 /// one FDT instance (fixed 1 MiB limit inside flute), plus slack
-pub fn heap_bound(n: usize, cache: usize) -> usize {
-    (4 << 20) + n * (64 * cache + (3 << 20))
+/// the same bound, per packet: a packet of TOI 0 may open an FDT instance, whose block limit is a
+/// constant of flute (1 MiB) and not the configured cache size; with a hostile FTI (E = 1) the
+/// per-symbol bookkeeping of such a block is 24 bytes per byte of block, the same amplification the
+/// object bound (64 x cache) allows for
+pub fn heap_bound_seq(seq: &[Vec<u8>], cache: usize) -> usize {
+    let mut b = 4usize << 20;
+    for p in seq {
+        let fdt = match crate::rfc::lct::decode(p) {
+            Ok(h) => h.toi == 0,
+            Err(_) => true,
+        };
+        b += if fdt { 64 * cache.max(1 << 20) + (3 << 20) } else { 64 * cache + (3 << 20) };
+    }
+    b
 }
 
 pub fn single_alloc_bound(cache: usize) -> usize {
@@ -99,13 +111,13 @@ pub fn run_sequence(seq: &[Vec<u8>], cache: usize, check_same_tsi: bool) -> Resu
             seq.len()
         ));
     }
-    if peak > heap_bound(seq.len(), cache) {
+    if peak > heap_bound_seq(seq, cache) {
         return Err(format!(
             "receiver heap grew by {} bytes on {} packets with object_max_cache_size {} (bound {})",
             peak,
             seq.len(),
             cache,
-            heap_bound(seq.len(), cache)
+            heap_bound_seq(seq, cache)
         ));
     }
     // (i) a valid session on a TSI the hostile packets did not use is still delivered
@@ -241,6 +253,16 @@ pub struct HostileFdt {
     pub e: u16,
     /// follow-up object packets: (toi index into files, scheme, in-band FTI?, sbn, esi, payload len, close)
     pub follow: Vec<(u8, Scheme, bool, u32, u32, u16, bool)>,
+    /// this many of the follow-up packets are sent BEFORE the instance (in-band FTI first, FDT later:
+    /// the two announcements of one object may disagree)
+    #[serde(default)]
+    pub lead: u8,
+    /// in-band FTI of the follow-up packets: transfer length = payload length x this (0: x3) ...
+    #[serde(default)]
+    pub follow_tl_mult: u8,
+    /// ... and maximum source block length (0: 4), so that the object may span several blocks
+    #[serde(default)]
+    pub follow_b: u8,
 }
 
 #[derive(Debug, Clone, Serialize, Deserialize)]
@@ -497,14 +519,16 @@ pub fn hostile_fdt_packets(h: &HostileFdt, tsi: u64) -> Vec<Vec<u8>> {
             }
         }
     }
-    for (fi, scheme, inband, sbn, esi, plen, close) in &h.follow {
+    let mut lead_pkts: Vec<Vec<u8>> = vec![];
+    let nlead = (h.lead as usize).min(h.follow.len());
+    for (fk, (fi, scheme, inband, sbn, esi, plen, close)) in h.follow.iter().enumerate() {
         let toi: u128 = h.files.get(*fi as usize % h.files.len().max(1)).and_then(|f| f.toi.trim().parse::<u128>().ok()).unwrap_or(3);
         let mut exts: Vec<Ext> = vec![];
         if *inband {
             let mut f = Fti::blank(*scheme);
-            f.transfer_length = (*plen as u64) * 3;
+            f.transfer_length = (*plen as u64) * if h.follow_tl_mult == 0 { 3 } else { h.follow_tl_mult as u64 };
             f.e = (*plen).max(1);
-            f.b = 4;
+            f.b = if h.follow_b == 0 { 4 } else { h.follow_b as u32 };
             f.max_n = 6;
             f.z = 1;
             f.n = 1;
@@ -530,9 +554,14 @@ pub fn hostile_fdt_packets(h: &HostileFdt, tsi: u64) -> Vec<Vec<u8>> {
         let mut p = lct::build(&spec);
         p.extend_from_slice(&fti::encode_payload_id(*scheme, 0, &PayloadId { sbn: *sbn, esi: *esi, sbl: Some(4) }));
         p.extend(std::iter::repeat(0x42u8).take(*plen as usize));
-        out.push(p);
+        if fk < nlead {
+            lead_pkts.push(p);
+        } else {
+            out.push(p);
+        }
     }
-    out
+    lead_pkts.extend(out);
+    lead_pkts
 }
 
 pub fn apply_muts(base: &[Vec<u8>], muts: &[Mut]) -> Vec<Vec<u8>> {
@@ -744,11 +773,12 @@ pub fn hostile_fdt() -> BoxedStrategy<HostileFdt> {
         prop_oneof![6 => Just(0u16), 1 => 1u16..50, 1 => Just(10_000u16)],
         prop_oneof![Just(1024u16), Just(64), Just(16)],
         proptest::collection::vec((any::<u8>(), proptest::sample::select(&Scheme::ALL[..]), any::<bool>(), boundary_u64(8).prop_map(|v| v as u32), boundary_u64(8).prop_map(|v| v as u32), 0u16..64, any::<bool>()), 0..6),
+        (prop_oneof![2 => Just(0u8), 1 => 1u8..4], prop_oneof![2 => Just(0u8), 1 => 1u8..60], prop_oneof![2 => Just(0u8), 1 => 1u8..5]),
     )
-        .prop_map(|(id, expires, mut inst_attrs, files, malform, malform_at, many, e, follow)| {
+        .prop_map(|(id, expires, mut inst_attrs, files, malform, malform_at, many, e, follow, (lead, follow_tl_mult, follow_b))| {
             inst_attrs.sort_by(|a, b| a.0.cmp(&b.0));
             inst_attrs.dedup_by(|a, b| a.0 == b.0);
-            HostileFdt { instance_id: id as u32, expires, inst_attrs, files, malform, malform_at, many, e, follow }
+            HostileFdt { instance_id: id as u32, expires, inst_attrs, files, malform, malform_at, many, e, follow, lead, follow_tl_mult, follow_b }
         })
         .boxed()
 }
@@ -1040,6 +1070,9 @@ pub fn seq_case_from_bytes(data: &[u8]) -> SeqCase {
                         many: 0,
                         e: 1024,
                         follow,
+                        lead: b.u8() % 4,
+                        follow_tl_mult: b.u8() % 60,
+                        follow_b: b.u8() % 5,
                     },
                 }
             }
